@@ -598,7 +598,16 @@ def compare_vis(case, impl, model):
     values_ok = not (op == "interpolate" and case["params"]["kind"] != "linear")
     if model.get("plain"):
         return cmp_floats("vals", words_to_floats(impl["vals"], impl["dtype"]), model["vals"], rtol, atol)
-    if impl["mask"] != model["mask"]:
+    if not values_ok:
+        # quadratic / cubic: the model runs the linear interpolant.  Outside a track's support both give zeros (missing);
+        # inside, linear interpolation of positive confidences is positive, while a spline may cross 0 exactly
+        # (e.g. the parabola through (0, .25), (.5, .25), (.75, 1) at .25) - so only "missing in the model => missing" is compared
+        if len(impl["mask"]) != len(model["mask"]):
+            return "missing pattern has %d slots, model %d" % (len(impl["mask"]), len(model["mask"]))
+        bad = [k for k, (a, b) in enumerate(zip(impl["mask"], model["mask"])) if b and not a]
+        if bad:
+            return "slot %d lies outside the track's support (missing in the model) but is present in the implementation" % bad[0]
+    elif impl["mask"] != model["mask"]:
         i = next(k for k in range(len(model["mask"])) if k >= len(impl["mask"]) or impl["mask"][k] != model["mask"][k])
         return "missing pattern differs at flat index %d" % i
     if list(impl["cshape"]) != list(model["cshape"]):
